@@ -211,6 +211,10 @@ def dominance_rule(f, P, rep, b):
     rep.floor('mutating calls in __discard_one_cluster', len(muts), 4)
     dp = Deps(P, b)
     guards = {'L1 entry is zero': 'is_zero', 'compressed': 'is_compressed', 'no allocation': 'allocation'}
+    if not any((t.get('fn') or '').endswith('L2Entry::allocation') for _bi, t in b.calls()) and \
+            any((t.get('fn') or '').endswith('L2Entry::cluster_offset') for _bi, t in b.calls()):
+        # the host cluster of a standard entry read directly: offset 0 = nothing allocated
+        guards['no allocation'] = 'cluster_offset'
     for what, fn in guards.items():
         # a decision on the result of fn with an edge that returns without touching anything
         found = None
@@ -251,7 +255,8 @@ def _mutators_reachable_under(f, b, guard_fn):
     """mutating calls of the routine that are reachable when the guard function says "nothing to do";
     None when the guard is not called at all"""
     from ..absint import AbsInt
-    forced = {'is_zero': ('c', 1), 'is_compressed': ('c', 1), 'allocation': ('opt', 'Option', ('c', 0), ('c', 0))}[guard_fn]
+    forced = {'is_zero': ('c', 1), 'is_compressed': ('c', 1), 'allocation': ('opt', 'Option', ('c', 0), ('c', 0)),
+              'cluster_offset': ('c', 0)}[guard_fn]
     if not any((t.get('fn') or '').endswith('::' + guard_fn) for _bi, t in b.calls()):
         return None
     ai = AbsInt(f)
@@ -323,8 +328,8 @@ def provenance_rule(f, P, rep, b):
         if fn.endswith('::free_clusters') or fn.endswith('::call_fallocate'):
             n += 1
             d = dp.of_operand(t['args'][1], (bi, 10 ** 6))
-            ok = any(x[0] == 'fn' and x[1].endswith('L2Entry::allocation') for x in d)
-            rep.ob('C11.5', '%s at %s' % (short(fn), b.where(bi)), ok, 'offset derives from the old entry\'s allocation()' if ok else 'offset does not derive from allocation()')
+            ok = any(x[0] == 'fn' and x[1].endswith(('L2Entry::allocation', 'L2Entry::cluster_offset')) for x in d)
+            rep.ob('C11.5', '%s at %s' % (short(fn), b.where(bi)), ok, 'offset derives from the old entry\'s allocation() / cluster_offset()' if ok else 'offset does not derive from allocation()')
             if not ok:
                 rep.violation('C11.5', 'C11.5:__discard_one_cluster:%s' % short(fn), b.where(bi),
                               '%s in __discard_one_cluster is applied to something else than the allocation of the entry being discarded' % short(fn))
